@@ -39,7 +39,7 @@ FUNCS = ("getrf getrs getri gesv gbtrf gbtrs gbsv gttrf gttrs gtsv potrf potrs p
          "gesdd gees gges lacpy larfg larfx").split()
 assert len(FUNCS) == 60
 
-REQUIRED_COUNTERS = ["fn." + f for f in FUNCS] + [
+REQUIRED_COUNTERS = ["blk.host-default-ld", "fn." + f for f in FUNCS] + [
     "mode.nat", "mode.emb", "tc.d", "tc.z", "order.0", "order.1", "nrhs.0", "nrhs.3",
     "singular.raised", "invalid.rejected", "mut.short", "mut.ld", "mut.negoff", "mut.tci", "mut.flip", "mut.grow",
     "footprint.checked", "unmodified-A.checked", "select.used", "range.I", "range.V", "range.A"]
@@ -97,6 +97,7 @@ def make_env(ctx):
             self.tc, self.mode, self.name, self.tcrule = tc, mode, name, tcrule
             self.ldmin = max(1, self.rows) if ldmin is None else max(1, ldmin)
             self.ldkw = self.offkw = None
+            self.hostld = False
             r, cl = self.rows, self.cols
             if mode == "nat":
                 self.ld, self.off = max(1, r), 0
@@ -115,6 +116,17 @@ def make_env(ctx):
                     extra = rng.choice([0, 2])
                 L = max(self.req, self.off, minlen) + extra
                 self.shape = (L, 1)
+                if data.shape[1] >= 1 and r > 0 and name.isupper() and len(name) <= 2 and rng.random() < 0.25:
+                    # 'host' variant: the block is the top-left corner of a 2-D matrix with more rows; the ld keyword
+                    # is omitted, so the wrapper's default max(1, X.size[0]) must address it (dimensions stay explicit)
+                    self.hostld = True
+                    self.off = 0
+                    self.req = (cl - 1) * self.ld + r
+                    hc = max(cl + rng.choice([0, 1]), -(-max(minlen, 1) // self.ld))
+                    L = self.ld * hc
+                    self.shape = (self.ld, hc)
+                    self._omit_off = rng.random() < 0.5
+                    ctx.count("blk.host-default-ld")
             self.L = L
             self.idx = (self.off + np.arange(r)[:, None] + self.ld * np.arange(cl)[None, :]).astype(int) \
                 if mode == "emb" else (np.arange(r)[:, None] + r * np.arange(cl)[None, :]).astype(int)
@@ -132,6 +144,11 @@ def make_env(ctx):
             if self.mode == "nat":
                 return {}
             d = {}
+            if self.hostld:
+                self.ldkw = None
+                if offname and not self._omit_off:
+                    d[offname] = 0
+                return d
             if ldname:
                 d[ldname] = self.ld
             if offname:
@@ -225,7 +242,7 @@ def make_env(ctx):
     def _try_invalid(c, fname, args, kw, grow):
         rng = c.rng
         blks = [a for a in args if isinstance(a, Blk)] + [v for v in kw.values() if isinstance(v, Blk)]
-        if not blks or any(b.mode != "emb" for b in blks):
+        if not blks or any(b.mode != "emb" or b.hostld for b in blks):
             return
         same = [b for b in blks if b.tcrule == "same" and b.tc in "dz"]
         cands = []
